@@ -77,6 +77,10 @@ Definition chk11 (c : Z * Q * Z * list answer * obs) : bool :=
   | Err _ => false
   end."""
 CTYPE = "Z * Q * Z * list answer * obs"
+# play_one_game RAISED in torch.multinomial because the search returned a root without candidates: the model's outcome
+# on the recorded answers (the last one has no candidate, the sampled index is absent) must be the BadIndex error
+CHK_RAISE = ("fun c => let '(sz, thr, lim, s, _) := c in "
+             "match play_one_game (mkSp sz thr lim) s with Err BadIndex => true | _ => false end")
 
 
 def cq(fr):
@@ -357,6 +361,10 @@ def _play(size, thr, limit, engine, forced=None):
             log = self_play.Transcript()
     answers = []
     for i, r in enumerate(rec.rows):
+        if r["cands"] is None:          # analysed, but the loop never asked for tree_probs: read the node directly
+            node = r["node"]
+            r = dict(r, cands=[c.move for c in (node.children or [])], probs=[], value=fr_of(node.value),
+                     sims=int(node.simulations), v_zero=fr_of(node.v_zero))
         answers.append({"cands": r["cands"], "probs": r["probs"], "value": r["value"], "sims": r["sims"],
                         "v_zero": r["v_zero"], "pick": rec.picks[i] if i < len(rec.picks) else -1})
     try:
@@ -402,7 +410,7 @@ def _case_term(g):
 
 
 def _scenario_json(g):
-    return {"size": g["size"], "thr": jq(g["thr"]), "limit": g["limit"],
+    return {"size": g["size"], "thr": jq(g["thr"]), "limit": g["limit"], "engine": g.get("engine"),
             "answers": [{"cands": [takio.j_move(m) for m in a["cands"]], "probs": [jq(x) for x in a["probs"]],
                          "value": jq(a["value"]), "sims": a["sims"], "v_zero": jq(a["v_zero"]), "pick": a["pick"]}
                         for a in g["answers"]]}
@@ -424,6 +432,9 @@ def _oracle(g):
     import tak
     bad = []
     if g.get("crash"):
+        a = g["answers"][-1] if g["answers"] else None
+        if a is not None and not a["cands"] and len(g["answers"]) == len(g["nodes"]) and abs(a["v_zero"]) < g["thr"]:
+            return "raise-no-candidates", []      # the search came back without a move: no transcript exists
         return "crash", ["crash:play_one_game raised " + g["crash"]]
     ps, ans, n = g["positions"], g["answers"], len(g["positions"])
     thr, limit = g["thr"], g["limit"]
@@ -649,6 +660,118 @@ def _mcts_games(run, count):
     return out
 
 
+class _LineEval:
+    """forces a line through the REAL search: one-hot prior on line[position.ply] when the position is the line's
+    position of that ply (the evaluator sees the ply), uniform otherwise; value 0"""
+    def __init__(self, n):
+        self.n, self.line, self.expect = n, [], []
+
+    def set_line(self, line):
+        self.line, self.expect = line, _positions_of(self.n, line)
+
+    def evaluate(self, position):
+        import torch
+        from tak.model import encoding
+        probs = torch.zeros(encoding.MAX_MOVE_ID)
+        k = position.ply
+        if 0 <= k < len(self.line) and position == self.expect[k]:
+            probs[encoding.encode_move(self.n, self.line[k])] = 1.0
+        else:
+            probs[: encoding.n_moves_for_size(self.n)] = 1.0
+            probs /= probs.sum()
+        return probs, 0.0
+
+
+def _repeat_line(rng, n, cycles, tail):
+    """corner stones slid away and back: the board of ply 2 returns at ply 6, 10, ... with the same side to move;
+    then `tail` placements"""
+    import tak
+    F = tak.MoveType.PLACE_FLAT
+    L, R, U, D = tak.MoveType.SLIDE_LEFT, tak.MoveType.SLIDE_RIGHT, tak.MoveType.SLIDE_UP, tak.MoveType.SLIDE_DOWN
+    line = [tak.Move(0, 0, F), tak.Move(n - 1, n - 1, F)]       # Black's stone on a1, White's on the far corner
+    for _ in range(cycles):
+        wdown = rng.random() < 0.5
+        bup = rng.random() < 0.5
+        w_away = tak.Move(n - 1, n - 1, D, (1,)) if wdown else tak.Move(n - 1, n - 1, L, (1,))
+        w_back = tak.Move(n - 1, n - 2, U, (1,)) if wdown else tak.Move(n - 2, n - 1, R, (1,))
+        b_away = tak.Move(0, 0, U, (1,)) if bup else tak.Move(0, 0, R, (1,))
+        b_back = tak.Move(0, 1, D, (1,)) if bup else tak.Move(1, 0, L, (1,))
+        line += [w_away, b_away, w_back, b_back]
+    free = [(x, y) for x in range(n) for y in range(n)
+            if (x, y) not in ((0, 0), (n - 1, n - 1), (1, 1), (n - 1, n - 2), (n - 2, n - 1), (0, 1), (1, 0))]
+    rng.shuffle(free)
+    line.append(tak.Move(n - 1, n - 1, D, (1,)) if rng.random() < 0.5 else tak.Move(1, 1, F))   # often the move of ply 2 again
+    line += [tak.Move(x, y, F) for (x, y) in free[:tail]]
+    return line
+
+
+def _repeat_games(run, engines):
+    """the REAL mcts.MCTS, ONE engine object for several games: lines that return to an earlier board within a game
+    and across the games of an engine (same board, different ply); ply limits that the repetition crosses"""
+    import torch
+    from tak import mcts
+    rng = run.rng
+    out = []
+    for e in range(engines):
+        n = rng.choice([3, 3, 4])
+        sims = rng.choice([1, 1, 2, 4])
+        ev = _LineEval(n)
+        seed = rng.randrange(1 << 30)
+        torch.manual_seed(seed)
+        eng = mcts.MCTS(mcts.Config(time_limit=0, simulation_limit=sims), ev)
+        recipe = {"kind": "repeat", "size": n, "sims": sims, "seed": seed, "games": []}
+        for gi in range(rng.choice([2, 3])):
+            line = _repeat_line(rng, n, rng.choice([1, 2, 3]) if gi else rng.choice([1, 2]), rng.randint(0, 3))
+            limit = rng.choice([5, 6, 8, 9, 12, len(line) - 1, 100])
+            ev.set_line(line)
+            recipe["games"].append({"line": [takio.j_move(m) for m in line], "limit": limit})
+            g = _play(n, 2.0, limit, eng)
+            g["engine"] = dict(recipe, games=list(recipe["games"]), game=gi)
+            out.append(({"kind": "mcts-repeat", "size": n, "sims": sims, "game_of_engine": gi,
+                         "line_length": len(line)}, g))
+    return out
+
+
+class _GlitchEval:
+    """uniform prior, value 0; on boards with `k` occupied squares all mass sits on a flat placement on an OCCUPIED
+    square, so no move passes the legality filter of MCTS.populate and the root has no children"""
+    def __init__(self, n, k):
+        self.n, self.k = n, k
+
+    def evaluate(self, position):
+        import tak
+        import torch
+        from tak.model import encoding
+        probs = torch.zeros(encoding.MAX_MOVE_ID)
+        occ = [i for i, sq in enumerate(position.board) if sq]
+        if len(occ) == self.k:
+            probs[encoding.encode_move(self.n, tak.Move(occ[0] % self.n, occ[0] // self.n))] = 1.0
+        else:
+            probs[: encoding.n_moves_for_size(self.n)] = 1.0
+            probs /= probs.sum()
+        return probs, 0.0
+
+
+def _noroot_games(run, count):
+    """the real search (one simulation per move, so only the root is evaluated) with an evaluator that leaves the root
+    of some position without a legal candidate: play_one_game must raise (no transcript) or return a transcript that
+    satisfies the stop clause"""
+    import torch
+    from tak import mcts
+    rng = run.rng
+    out = []
+    for j in range(count):
+        n, k = rng.choice([3, 4, 4]), rng.choice([2, 3, 4, 5])
+        seed = rng.randrange(1 << 30)
+        torch.manual_seed(seed)
+        eng = mcts.MCTS(mcts.Config(time_limit=0, simulation_limit=1), _GlitchEval(n, k))
+        limit = rng.choice([30, 100, 12])
+        g = _play(n, 0.95, limit, eng)
+        g["engine"] = {"kind": "glitch", "size": n, "k": k, "seed": seed, "limit": limit}
+        out.append(({"kind": "mcts-noroot", "size": n, "occupied_squares_of_the_glitch": k}, g))
+    return out
+
+
 # --------------------------------------------------------------------------
 def _digest(g):
     s = json.dumps([_scenario_json(g)], sort_keys=True)
@@ -685,8 +808,11 @@ def correspondence(run):
     t0 = time.time()
     parts = [("scripted", _scripted_games(run, n_scripted)),
              ("free", _free_games(run, n_free)),
-             ("mcts", _mcts_games(run, n_mcts))]
-    allgames = [(meta, g) for _, games in parts for (meta, g) in games]
+             ("mcts", _mcts_games(run, n_mcts)),
+             ("mcts-repeat", _repeat_games(run, 12 if run.quick else 120)),
+             ("mcts-noroot", _noroot_games(run, 8 if run.quick else 80))]
+    raised = [(meta, g) for _, games in parts for (meta, g) in games if g.get("crash")]
+    allgames = [(meta, g) for _, games in parts for (meta, g) in games if not g.get("crash")]
     # heavy (long / many-candidate) games are spread over the shards
     order = sorted(range(len(allgames)), key=lambda i: -sum(len(a["cands"]) + 3 for a in allgames[i][1]["answers"]))
     nsh = max(1, min(len(allgames), max(core.NPROC, (len(allgames) + 17) // 18)))   # start-up dominates small shards
@@ -704,6 +830,14 @@ def correspondence(run):
     core.log(f"[C11] games played in {t1 - t0:.1f}s, {nshards} shards evaluated in Coq in {time.time() - t1:.1f}s")
     run.oblige(f"correspondence:games ({nshards} shards)", not shard_fail, str(shard_fail)[:1500])
     failing_ids = {id(m) for m in failing}
+    if raised:
+        cr = core.Cases(ID, "raised", HEADER, CTYPE, CHK_RAISE, show="view", shard=max(1, len(raised)))
+        for meta, g in raised:
+            g2 = dict(g, positions=[], moves=[], probs=[], values=[], result=None, labels=[], labels_raw=[], logits=None)
+            cr.add(_case_term(g2), meta)
+        f2, sf2, _ = cr.run()
+        run.oblige("correspondence:games that raised (the model answers BadIndex on the recorded answers)", not sf2, str(sf2)[:1500])
+        failing_ids |= {id(m) for m in f2}
     for name, games in parts:
         dist, seen, nontrivial = {}, set(), 0
         samples = []
@@ -732,7 +866,8 @@ def correspondence(run):
 def search(run, broken):
     """a proof/tie/shard broke without a concrete disagreement: run the statement's oracle on fresh games"""
     core.setup_impl(ext=True, shims=True)
-    games = _scripted_games(run, 150) + _free_games(run, 30) + _mcts_games(run, 10)
+    games = _noroot_games(run, 12) + _repeat_games(run, 12) + _scripted_games(run, 150) + _free_games(run, 30) + \
+        _mcts_games(run, 10)
     for meta, g in games:
         cls, clauses = _oracle(g)
         if clauses:
@@ -742,9 +877,31 @@ def search(run, broken):
     return False
 
 
+def _replay_real(e):
+    """plays the recipe of a real-engine game again on the current tree (all the games of the engine up to that one)"""
+    import torch
+    from tak import mcts
+    torch.manual_seed(e["seed"])
+    if e["kind"] == "glitch":
+        eng = mcts.MCTS(mcts.Config(time_limit=0, simulation_limit=1), _GlitchEval(e["size"], e["k"]))
+        return _play(e["size"], 0.95, e["limit"], eng)
+    ev = _LineEval(e["size"])
+    eng = mcts.MCTS(mcts.Config(time_limit=0, simulation_limit=e["sims"]), ev)
+    g = None
+    for gm in e["games"][: e["game"] + 1]:
+        ev.set_line([takio.mk_move(m) for m in gm["line"]])
+        g = _play(e["size"], 2.0, gm["limit"], eng)
+    return g
+
+
 def replay(run, rp):
     core.setup_impl(ext=True, shims=True)
     sc = rp["scenario"]
+    if sc.get("engine"):
+        g = _replay_real(sc["engine"])
+        cls, clauses = _oracle(g)
+        return {"violates": bool(clauses), "ending_class": cls, "oracle_violations": clauses,
+                "impl_output": _observed_json(g)}
     steps = [{"cands": [takio.mk_move(m) for m in a["cands"]],
               "probs": [float(Fraction(*x)) for x in a["probs"]],
               "value": float(Fraction(*a["value"])), "sims": a["sims"],
